@@ -317,6 +317,27 @@ def run_once(rec, root, cfg, opt, reg, sets, expected, case):
             out_fs = Collocations(path=root + "/" + OUT_TEMPLATE[:-4] + ".nc", read_mode="compact")
         else:
             out_fs = Collocations(path=root + "/" + OUT_TEMPLATE, handler=handler(), read_mode="compact")
+    restore_makedirs = None
+    if out_fs is not None and opt["processes"] >= 2 and opt.get("mkdir_rendezvous"):
+        # schedule control at an existing suspension point (the system call that creates the output
+        # directory): the first directory creation of two workers is made to coincide
+        import multiprocessing
+        bar = multiprocessing.get_context("fork").Barrier(2)
+        fsys = out_fs.file_system
+        orig_makedirs = fsys.makedirs
+        first = {"pid": None}
+
+        def makedirs(path, exist_ok=False, **mk):
+            if first["pid"] != os.getpid():
+                first["pid"] = os.getpid()
+                try:
+                    bar.wait(timeout=1.5)
+                except Exception:
+                    pass     # no second worker reaches this point: go on alone
+            return orig_makedirs(path, exist_ok=exist_ok, **mk)
+        fsys.makedirs = makedirs
+        restore_makedirs = (fsys, orig_makedirs)
+        rec.count("runs.mkdir_rendezvous")
     start = DAY0 + D(seconds=cfg["start"])
     end = DAY0 + D(seconds=cfg["end"])
     kw = dict(start=start, end=end, processes=opt["processes"], bundle=opt["bundle"],
@@ -368,6 +389,11 @@ def run_once(rec, root, cfg, opt, reg, sets, expected, case):
     finally:
         if probe:
             probe.__exit__(None, None, None)
+        if restore_makedirs:
+            try:
+                del restore_makedirs[0].makedirs      # back to the class's method
+            except AttributeError:
+                restore_makedirs[0].makedirs = restore_makedirs[1]
         os.environ.pop("VT_C05_CFG", None)
         os.environ.pop("VT_C05_LOG", None)
     # conservation inside the workers
@@ -543,7 +569,7 @@ def run_config(rec, rng, cfg):
                          "bundle": rng.choice([None, "primary", "daily"]),
                          "delays": rng.random() < 0.6, "delay_seed": rng.randrange(100),
                          "slow_consumer": rng.random() < 0.4, "main_delay": rng.random() < 0.5})
-        fopt = {"output": "file", "processes": rng.choice([1, 2, 4]),
+        fopt = {"output": "file", "processes": rng.choice([1, 2, 4]), "mkdir_rendezvous": rng.random() < 0.6,
                 "bundle": rng.choice([None, "primary", "daily"]), "delays": rng.random() < 0.5,
                 "delay_seed": rng.randrange(100), "netcdf": rng.random() < 0.35}
         opts.append(fopt)
